@@ -710,6 +710,24 @@ func (u *Unit) evalSpecCall(env *SpecEnv, c *ECall) Value {
 			return r
 		}
 	}
+	// application of a function-typed field, e.g. s.DistanceFunc(a, b)
+	if fe, ok := c.Fun.(*EField); ok {
+		if _, isPkg := fe.X.(*EIdent); !isPkg || func() bool { _, l := env.lookup(fe.X.(*EIdent).Name); return l }() {
+			fv := u.evalSpec(env, fe)
+			if sig, isSig := fv.Ty.Underlying().(*types.Signature); isSig && sig.Results().Len() == 1 && fv.T != nil {
+				sorts := []string{"Int"}
+				ts := []*Term{fv.T}
+				for i := range c.Args {
+					a := arg(i)
+					sorts = append(sorts, a.T.Sort)
+					ts = append(ts, a.T)
+				}
+				rt := sig.Results().At(0).Type()
+				uname := fmt.Sprintf("apply_%s_%d", sanitize(TypeKey(fv.Ty)), 0)
+				return Value{T: w.UF(uname, sorts, w.SortOf(rt), ts...), Ty: rt}
+			}
+		}
+	}
 	// application of a function-typed parameter (pure, total, deterministic: uninterpreted)
 	if id, ok := c.Fun.(*EIdent); ok {
 		if fv, found := env.lookup(id.Name); found && fv.T != nil {
